@@ -72,17 +72,21 @@ N_RANDOM = {'quick': 90000, 'thorough': 2000000}
 N_HIST = {'quick': 12000, 'thorough': 200000}
 N_DEB822 = {'quick': 6000, 'thorough': 80000}
 
-FLOORS = {'quick': {'nontrivial': 20000,
-                    'monitors': {'M': 30000, 'M.idem': 30000, 'M.hist': 5000, 'M.deb822': 3000},
-                    'counters': {'flavour:rt': 20000, 'flavour:hist': 2500, 'flavour:deb822': 1200,
-                                 'deb822:Packages': 500, 'deb822:Sources': 500,
-                                 'hist:mut:arch': 500, 'hist:mut:term': 500}},
-          'thorough': {'nontrivial': 900000,
-                       'monitors': {'M': 1500000, 'M.idem': 1500000, 'M.hist': 200000, 'M.deb822': 80000},
-                       'counters': {'flavour:rt': 1000000, 'flavour:hist': 90000, 'flavour:deb822': 35000,
-                                    'deb822:Packages': 15000, 'deb822:Sources': 15000,
-                                    'hist:mut:arch': 20000, 'hist:mut:term': 20000}}}
-SHAPE_FLOOR = {'quick': 40, 'thorough': 1000}           # per shape, over the whole run
+FLOORS = {'quick': {'nontrivial': 50000,
+                    'monitors': {'M': 54000, 'M.idem': 54000, 'M.hist': 12000, 'M.deb822': 11000},
+                    'counters': {'flavour:rt': 48000, 'flavour:hist': 6000, 'flavour:deb822': 3000,
+                                 'deb822:Packages': 1500, 'deb822:Sources': 1500,
+                                 'deb822:init:text': 700, 'deb822:init:lines': 700, 'deb822:init:dict': 700,
+                                 'deb822:init:iter': 700,
+                                 'hist:mut:arch': 3500, 'hist:mut:term': 3500}},
+          'thorough': {'nontrivial': 1100000,
+                       'monitors': {'M': 1100000, 'M.idem': 1100000, 'M.hist': 200000, 'M.deb822': 150000},
+                       'counters': {'flavour:rt': 1000000, 'flavour:hist': 100000, 'flavour:deb822': 40000,
+                                    'deb822:Packages': 20000, 'deb822:Sources': 20000,
+                                    'deb822:init:text': 9000, 'deb822:init:lines': 9000, 'deb822:init:dict': 9000,
+                                    'deb822:init:iter': 9000,
+                                    'hist:mut:arch': 60000, 'hist:mut:term': 60000}}}
+SHAPE_FLOOR = {'quick': 1800, 'thorough': 55000}           # per shape, over the whole run
 
 LOWER = 'abcdefghijklmnopqrstuvwxyz'
 DIGITS = '0123456789'
@@ -223,7 +227,16 @@ def cases(ctx):
     r = ctx.rng('random')
     for _i in range(ctx.size(N_RANDOM['quick'], N_RANDOM['thorough'])):
         yield {'kind': 'rt', 'rels': gen_rels(r, wide)}
-    # 3. history flavour
+    # 3. through Packages / Sources .relations
+    r = ctx.rng('deb822')
+    for i in range(ctx.size(N_DEB822['quick'], N_DEB822['thorough'])):
+        cls = 'Packages' if i % 2 == 0 else 'Sources'
+        paras = []
+        for _p in range(r.choice([1, 1, 2, 3])):
+            names = r.sample(CLS_FIELDS[cls], r.choice([1, 1, 2, 3, 4]))
+            paras.append([[n, gen_rels(r)] for n in names])
+        yield {'kind': 'deb822', 'cls': cls, 'init': r.choice(['text', 'lines', 'dict', 'iter']), 'paras': paras}
+    # 4. history flavour - last, so that the in-place edits it makes cannot influence the other flavours
     r = ctx.rng('hist')
     kinds = ['arch', 'term', 'group', 'scalar', 'alt', 'and']
     for _i in range(ctx.size(N_HIST['quick'], N_HIST['thorough'])):
@@ -234,15 +247,6 @@ def cases(ctx):
         if 'arch' not in muts and 'term' not in muts:
             muts.append(r.choice(['arch', 'term']))
         yield {'kind': 'hist', 'rels': rels, 'rels2': regroup(r, rels), 'muts': muts}
-    # 4. through Packages / Sources .relations
-    r = ctx.rng('deb822')
-    for i in range(ctx.size(N_DEB822['quick'], N_DEB822['thorough'])):
-        cls = 'Packages' if i % 2 == 0 else 'Sources'
-        paras = []
-        for _p in range(r.choice([1, 1, 2, 3])):
-            names = r.sample(CLS_FIELDS[cls], r.choice([1, 1, 2, 3, 4]))
-            paras.append([[n, gen_rels(r)] for n in names])
-        yield {'kind': 'deb822', 'cls': cls, 'init': r.choice(['text', 'lines', 'dict', 'iter']), 'paras': paras}
 
 
 # ---------------------------------------------------------------------------
@@ -431,14 +435,22 @@ def mutate(PR, rels, muts):
     return done
 
 
+EDITED = [0]      # hist cases that have edited a parse result in this process
+
+
 def run_hist(ctx, PR, case):
     desc, desc2, muts = case['rels'], case['rels2'], case['muts']
     nt = account(ctx, desc)
     fail, _text, given, back = roundtrip(ctx, PR, desc)
     if fail is not None:
         fail, small = shrink(ctx, PR, desc, fail)
-        ctx.violation(fail[0], fail[1], small)
+        note = ''
+        if EDITED[0]:
+            note = (' (note: %d earlier cases of this process edited parse results in place; if this witness does not '
+                    'replay on its own, the cause is state shared between parses - see the history/ witnesses)' % EDITED[0])
+        ctx.violation(fail[0], fail[1] + note, small)
         return
+    EDITED[0] += 1
     for k in mutate(PR, back, muts):
         ctx.count('hist:mut:' + k)
     mutate(PR, given, muts)
@@ -462,19 +474,8 @@ def para_text(PR, cls, idx, fields):
     return lines
 
 
-def run_deb822(ctx, PR, case):
-    from debian import deb822
-    clsname = case['cls']
-    if clsname not in CLS_FIELDS:
-        ctx.count('skipped:out-of-domain')
-        return
-    cls = getattr(deb822, clsname)
-    paras, init = case['paras'], case['init']
-    for fields in paras:
-        names = [n.lower() for n, _d in fields]
-        if len(set(names)) != len(names) or not all(n in CLS_FIELDS[clsname] for n, _d in fields):
-            ctx.count('skipped:out-of-domain')
-            return
+def make_paragraphs(PR, cls, init, paras):
+    """Build the paragraph objects the way `init` says; None when the paragraph count is off."""
     texts = [para_text(PR, cls, i, f) for i, f in enumerate(paras)]
     if init == 'iter':
         lines = []
@@ -482,57 +483,89 @@ def run_deb822(ctx, PR, case):
             lines.extend(t)
             lines.append('')
         objs = list(cls.iter_paragraphs(lines, use_apt_pkg=False))
-        if len(objs) != len(paras):
-            # the paragraph splitter is another property's business: no verdict from here
-            ctx.count('skipped:paragraph-count')
-            return
-    elif init == 'text':
-        objs = [cls('\n'.join(t) + '\n') for t in texts]
-    elif init == 'lines':
-        objs = [cls(list(t)) for t in texts]
-    else:
-        objs = [cls(dict(l.split(': ', 1) for l in t)) for t in texts]
-    ctx.count('deb822:%s' % clsname)
-    ctx.count('deb822:init:%s' % init)
-    nt = False
+        return objs if len(objs) == len(paras) else None
+    if init == 'text':
+        return [cls('\n'.join(t) + '\n') for t in texts]
+    if init == 'lines':
+        return [cls(list(t)) for t in texts]
+    return [cls(dict(l.split(': ', 1) for l in t)) for t in texts]
+
+
+def observe_relations(PR, cls, clsname, init, paras, on_eval=None):
+    """Read every generated field back through `.relations`.  Returns None (all
+    paragraphs gave back their structures), 'count' (paragraph splitter: not this
+    property's business) or (key_suffix, message)."""
+    objs = make_paragraphs(PR, cls, init, paras)
+    if objs is None:
+        return 'count'
     for obj, fields in zip(objs, paras):
         with warnings.catch_warnings(record=True) as caught:
             warnings.simplefilter('always')
             rel = obj.relations
         for name, desc in fields:
-            nt = account(ctx, desc) or nt
-            ctx.mon('M.deb822')
-            want = build(PR, desc)
-            small = {'kind': 'deb822', 'cls': clsname, 'init': init, 'paras': [[[name, desc]]]}
+            if on_eval is not None:
+                on_eval()
+            where = '%s(%s).relations[%r] for field value %r' % (clsname, init, name.lower(), obj[name])
             if caught:
-                ctx.violation('relations-property/parse-warning', '%s.relations warned: %s (field %s: %r)'
-                              % (clsname, '; '.join(str(w.message) for w in caught[:3]), name, obj[name]),
-                              small if len(fields) == 1 and len(paras) == 1 else case)
-                return
+                return 'parse-warning', '%s warned: %s' % (where, '; '.join(str(w.message) for w in caught[:3]))
             try:
                 got = rel[name]
             except KeyError:
-                ctx.violation('relations-property/field-missing', '%s.relations has no entry for present field %s'
-                              % (clsname, name), small)
-                return
-            d = diff(PR, got, want)
+                return 'field-missing', '%s: no entry for a present field' % where
+            d = diff(PR, got, build(PR, desc))
             if d is not None:
-                # does the bare boundary already fail on this structure?  then it is not specific to .relations
-                f = roundtrip(ctx, PR, desc, mon=False)[0]
-                if f is not None:
-                    f, sm = shrink(ctx, PR, desc, f)
-                    ctx.violation(f[0], f[1], sm)
-                else:
-                    multi = len(fields) > 1 or len(paras) > 1
-                    ctx.violation('relations-property/differs/%s' % d[0], '%s(%s).relations[%r] for value %r: %s'
-                                  % (clsname, init, name.lower(), obj[name], d[1]), case if multi else small)
+                return 'differs/%s' % d[0], '%s: %s' % (where, d[1])
+            again = PR.str(got)
+            if again != obj[name]:
+                return 'reformat-differs', '%s: formats back to %r' % (where, again)
+    return None
+
+
+def run_deb822(ctx, PR, case):
+    from debian import deb822
+    clsname = case['cls']
+    paras, init = case['paras'], case['init']
+    if clsname not in CLS_FIELDS or init not in ('text', 'lines', 'dict', 'iter'):
+        ctx.count('skipped:out-of-domain')
+        return
+    cls = getattr(deb822, clsname)
+    for fields in paras:
+        names = [n.lower() for n, _d in fields]
+        if len(set(names)) != len(names) or not all(n in CLS_FIELDS[clsname] for n, _d in fields):
+            ctx.count('skipped:out-of-domain')
+            return
+    nt = False
+    for fields in paras:
+        for _name, desc in fields:
+            nt = account(ctx, desc) or nt
+    problem = observe_relations(PR, cls, clsname, init, paras, on_eval=lambda: ctx.mon('M.deb822'))
+    if problem == 'count':
+        ctx.count('skipped:paragraph-count')
+        return
+    ctx.count('deb822:%s' % clsname)
+    ctx.count('deb822:init:%s' % init)
+    if problem is None:
+        if nt:
+            ctx.nontrivial()
+        return
+    # attribution: does the bare str/parse_relations boundary already fail on one of these structures?
+    for fields in paras:
+        for _name, desc in fields:
+            f = roundtrip(ctx, PR, desc, mon=False)[0]
+            if f is not None:
+                f, small = shrink(ctx, PR, desc, f)
+                ctx.violation(f[0], f[1], small)
                 return
-            if PR.str(got) != obj[name]:
-                ctx.violation('relations-property/reformat-differs', 'str(%s.relations[%r])=%r, field value %r'
-                              % (clsname, name.lower(), PR.str(got), obj[name]), small)
+    # specific to the .relations path: look for a one-field witness
+    for fields in paras:
+        for name, desc in fields:
+            one = [[[name, desc]]]
+            p1 = observe_relations(PR, cls, clsname, init, one)
+            if p1 not in (None, 'count'):
+                ctx.violation('relations-property/%s' % p1[0], p1[1],
+                              {'kind': 'deb822', 'cls': clsname, 'init': init, 'paras': one})
                 return
-    if nt:
-        ctx.nontrivial()
+    ctx.violation('relations-property/%s' % problem[0], problem[1], case)
 
 
 def run_case(ctx, case):
@@ -571,7 +604,7 @@ def conclusive(tier, counters, monitor_evals, extra):
     return None
 
 
-LEVEL_TEXT = ('Runtime monitoring: 4*10^4 (quick) / 2*10^6 (thorough) generated relation structures plus a complete '
+LEVEL_TEXT = ('Runtime monitoring: 10^5 (quick) / 2*10^6 (thorough) generated relation structures plus a complete '
               '(operator or none) x {arch qualifier, arch list, restriction formula} x position matrix are formatted by the '
               'live PkgRelation.str, parsed by the live PkgRelation.parse_relations under a recording warnings filter, and '
               'compared with the structure itself (values, documented namedtuple types, second formatting).  A history '
